@@ -16,6 +16,8 @@ import (
 	"unicode/utf8"
 
 	"github.com/robfig/gettext/po"
+	"github.com/robfig/soy/soymsg"
+	"github.com/robfig/soy/soymsg/pomsg"
 	"soyverif/internal/hx"
 )
 
@@ -264,6 +266,233 @@ func c11PoCorrespondence(e *env) {
 		want := c11poFieldsResp(m.Ctxt, m.Id, m.IdPlural, m.Str, false)
 		if got != want {
 			c11Fail(e, hx.Violation{Kind: "mismatch", What: "po.Parse differs from the model on the quoted fields", Case: hx.Q(in), Expected: got, Observed: want}, "")
+		}
+	}
+
+	c11PoEntryCorrespondence(e)
+}
+
+// ---- 5. whole entries and whole files (Model/PoEntry.v): the comment lines, the blank lines between
+// entries, the loop of po.Parse ----
+var c11poDescAlpha = []string{
+	"a", "Z", " ", "  ", "first line", "second", "#", "#:", "#. ", "#: id=7", "msgid \"x\"", "msgstr", "\"", "\\", "{NAME}",
+	"\n", "\n", "\n\n", "\r", "\r\n", "\t", "\u00e9", "\u65e5\u672c", "\xff", "id=1", "var=x", ":",
+}
+
+func c11poHexList(l []string) string {
+	out := []string{hx.I(int64(len(l)))}
+	for _, s := range l {
+		out = append(out, hx.H(s))
+	}
+	return strings.Join(out, " ")
+}
+
+func c11poMsgResp(m po.Message) string {
+	return strings.Join([]string{c11poHexList(m.TranslatorComments), c11poHexList(m.ExtractedComments), c11poHexList(m.References), c11poHexList(m.Flags),
+		hx.H(m.PrevCtxt), hx.H(m.PrevId), hx.H(m.PrevIdPlural), hx.H(m.Ctxt), hx.H(m.Id), hx.H(m.IdPlural), c11poHexList(m.Str)}, " ")
+}
+
+func c11poFileResp(ms []po.Message) string {
+	out := []string{"ok", hx.I(int64(len(ms)))}
+	for _, m := range ms {
+		out = append(out, c11poMsgResp(m))
+	}
+	return strings.Join(out, " ")
+}
+
+func c11poIsPlural(p soymsg.Part) bool { _, ok := p.(soymsg.PluralPart); return ok }
+
+func c11poParts(ps []soymsg.Part) string {
+	out := []string{hx.I(int64(len(ps)))}
+	for _, p := range ps {
+		switch p := p.(type) {
+		case soymsg.RawTextPart:
+			out = append(out, "T", hx.H(p.Text))
+		case soymsg.PlaceholderPart:
+			out = append(out, "P", hx.H(p.Name))
+		default:
+			out = append(out, "?")
+		}
+	}
+	return strings.Join(out, " ")
+}
+
+func c11PoEntryCorrespondence(e *env) {
+	type entry struct {
+		desc, v, ctxt, id, idp string
+		num                    uint64
+		strs                   []string
+	}
+	// (a) files of entries as the extractor builds them: any description, id, plural variable, fields
+	var files [][]entry
+	for i := 0; i < 700*e.scale; i++ {
+		var f []entry
+		for k := 1 + e.rng.Intn(3); k > 0; k-- {
+			var en entry
+			var sb strings.Builder
+			for j := e.rng.Intn(6); j > 0; j-- {
+				sb.WriteString(c11poDescAlpha[e.rng.Intn(len(c11poDescAlpha))])
+			}
+			en.desc = sb.String()
+			en.num = uint64(e.rng.Intn(1000000)) + 1
+			if e.rng.Intn(4) == 0 {
+				en.num = uint64(1)<<63 - uint64(e.rng.Intn(1000)) - 1
+			}
+			if e.rng.Intn(3) == 0 {
+				en.ctxt = c11poString(e, 3)
+			}
+			en.id = "m" + c11poString(e, 5)
+			if e.rng.Intn(2) == 0 {
+				en.v = e.rng.Pick([]string{"N", "N_1", "COUNT", "X_2"})
+				en.idp = "p" + c11poString(e, 5)
+			}
+			// the msgstr a translator filled in (none, empty, several forms)
+			for k := e.rng.Intn(4); k > 0; k-- {
+				en.strs = append(en.strs, e.rng.Pick([]string{"", "{NAME} x", "x{N_1}{", "{{A}}", "plain"})+c11poString(e, 3))
+			}
+			if len(f) > 0 && e.rng.Intn(8) == 0 {
+				en.num = f[len(f)-1].num // two entries with one id: the later one wins
+			}
+			if e.rng.Intn(40) == 0 {
+				en.num = 0 // pomsg refuses the catalogue
+			}
+			f = append(f, en)
+		}
+		files = append(files, f)
+	}
+	reqs := make([]string, len(files))
+	for i, f := range files {
+		parts := []string{"c11_po_entries", hx.I(int64(len(f)))}
+		var all []string
+		for _, en := range f {
+			pl := "#0"
+			if en.v != "" {
+				pl = "#1"
+			}
+			parts = append(parts, hx.H(en.desc), c11U(en.num), hx.H(en.v), pl, hx.H(en.ctxt), hx.H(en.id), hx.H(en.idp), hx.I(int64(len(en.strs))))
+			for _, str := range en.strs {
+				parts = append(parts, hx.H(str))
+			}
+			all = append(all, en.ctxt, en.id, en.idp)
+			all = append(all, en.strs...)
+		}
+		reqs[i] = strings.Join(parts, " ") + " " + c11poPrintable(all...)
+	}
+	res := e.m.Batch(reqs)
+	var loadReqs, loadWant, loadCase []string
+	for i, f := range files {
+		var pf po.File
+		for _, en := range f {
+			ref := "id=" + strconv.FormatUint(en.num, 10)
+			if en.v != "" {
+				ref += " var=" + en.v
+			}
+			pf.Messages = append(pf.Messages, po.Message{
+				Comment: po.Comment{ExtractedComments: strings.Split(en.desc, "\n"), References: []string{ref}},
+				Ctxt:    en.ctxt, Id: en.id, IdPlural: en.idp, Str: en.strs,
+			})
+		}
+		var buf bytes.Buffer
+		pf.WriteTo(&buf)
+		cs := fmt.Sprintf("%q", f)
+		e.res.Count("poentries"+cs, strings.Contains(cs, "\\n"), "model:po-entries")
+		back, err := po.Parse(bytes.NewReader(buf.Bytes()))
+		// oracle (the desc-newline repair as a property of the real code): every entry comes back with its id, its
+		// plural variable and its msgid, whatever the description is
+		ok := err == nil && len(back.Messages) == len(f)
+		for k := 0; ok && k < len(f); k++ {
+			m := back.Messages[k]
+			want := []string{"id=" + strconv.FormatUint(f[k].num, 10)}
+			if f[k].v != "" {
+				want = append(want, "var="+f[k].v)
+			}
+			ok = fmt.Sprint(m.References) == fmt.Sprint(want) && m.Id == f[k].id && m.IdPlural == f[k].idp && m.Ctxt == f[k].ctxt
+		}
+		if !ok {
+			c11Fail(e, hx.Violation{Kind: "oracle", What: "entries written as xgettext-soy writes them (one #. line per line of the description) are not read back with their id reference, plural variable and msgid", Case: cs,
+				Observed: fmt.Sprintf("err=%v %q", err, back.Messages)}, "")
+			continue
+		}
+		want := hx.H(buf.String()) + " " + c11poFileResp(back.Messages)
+		if got := strings.Join(res[i], " "); got != want {
+			c11Fail(e, hx.Violation{Kind: "mismatch", What: "po.File.WriteTo / po.Parse differ from the model on whole entries", Case: cs, Expected: got, Observed: want}, "")
+			continue
+		}
+		// the bytes through pomsg.Load (po.Parse + newBundle) against Model/PoBundle.v
+		ids := []string{hx.I(int64(len(f)))}
+		for _, en := range f {
+			ids = append(ids, c11U(en.num))
+		}
+		loadReqs = append(loadReqs, "c11_po_load "+hx.H(buf.String())+" "+strings.Join(ids, " "))
+		prov, lerr := pomsg.Load(c11Opener{"en": buf.String()}, []string{"en"})
+		resp := "err"
+		if lerr == nil {
+			out := []string{"ok"}
+			bun := prov.Bundle("en")
+			for _, en := range f {
+				m := bun.Message(en.num)
+				switch {
+				case m == nil:
+					out = append(out, "none")
+				case len(m.Parts) == 1 && c11poIsPlural(m.Parts[0]):
+					pp := m.Parts[0].(soymsg.PluralPart)
+					out = append(out, "L", hx.H(pp.VarName), hx.I(int64(len(pp.Cases))))
+					for _, c := range pp.Cases {
+						out = append(out, c11poParts(c.Parts))
+					}
+				default:
+					out = append(out, "S", c11poParts(m.Parts))
+				}
+			}
+			resp = strings.Join(out, " ")
+		}
+		loadWant = append(loadWant, resp)
+		loadCase = append(loadCase, cs)
+	}
+	lres := e.m.Batch(loadReqs)
+	for i := range loadReqs {
+		e.res.Count("poload"+loadCase[i], true, "model:po-load")
+		if got := strings.Join(lres[i], " "); got != loadWant[i] {
+			c11Fail(e, hx.Violation{Kind: "mismatch", What: "pomsg.Load (po.Parse + newBundle) differs from the model on the bytes of a catalogue", Case: loadCase[i], Expected: got, Observed: loadWant[i]}, "")
+		}
+	}
+	// (b) po.Parse on files as translators' tools leave them: every kind of comment line, lone "#", blank lines,
+	// several entries, a missing blank line, a description line that is not a comment (the pinned extractor's output)
+	lines := []string{
+		"", "", "#", "# translator", "#  two spaces", "#. extracted", "#. ", "#.no blank", "#: a.soy:3 id=5", "#: id=7 var=N", "#:id=9", "#, fuzzy", "#, fuzzy, c-format",
+		"#| msgctxt \"old\"", "#| msgid \"old id\"", "#| msgid_plural \"olds\"", "#~ msgid \"gone\"", "second line of a description",
+		"msgctxt \"c\"", "msgid \"a\"", "msgid \"b {X}\"", "msgid \"\"", "\"cont\\n\"", "msgid_plural \"bs\"", "msgstr \"t\"", "msgstr \"\"",
+		"msgstr[0] \"t0\"", "msgstr[1] \"t1\"", "msgstr[2] \"\"", "  ", "\t", "#\r", "msgid \"a\"\r", " # indented",
+	}
+	var inputs []string
+	for i := 0; i < 1500*e.scale; i++ {
+		var sb strings.Builder
+		for k := e.rng.Intn(14); k > 0; k-- {
+			sb.WriteString(lines[e.rng.Intn(len(lines))] + "\n")
+		}
+		if e.rng.Intn(6) == 0 {
+			sb.WriteString(lines[e.rng.Intn(len(lines))]) // a last line without a newline
+		}
+		inputs = append(inputs, sb.String())
+	}
+	reqs = make([]string, len(inputs))
+	for i, in := range inputs {
+		reqs[i] = "c11_po_parse " + hx.H(in)
+	}
+	res = e.m.Batch(reqs)
+	for i, in := range inputs {
+		got := strings.Join(res[i], " ")
+		e.res.Count("poparse"+in, strings.Contains(in, "msgid"), "model:po-parse")
+		// the messages before the header is taken out: Parse on the input with a first message that cannot be a header
+		file, err := po.Parse(strings.NewReader("msgid \"first\"\nmsgstr \"\"\n\n" + in))
+		if err != nil {
+			if !strings.HasPrefix(got, "err") {
+				c11Fail(e, hx.Violation{Kind: "mismatch", What: "po.Parse reports an error, the model does not", Case: hx.Q(in), Expected: got, Observed: err.Error()}, "")
+			}
+			continue
+		}
+		if want := c11poFileResp(file.Messages[1:]); got != want {
+			c11Fail(e, hx.Violation{Kind: "mismatch", What: "po.Parse differs from the model (comment lines, blank lines, several entries)", Case: hx.Q(in), Expected: got, Observed: want}, "")
 		}
 	}
 }
